@@ -214,8 +214,12 @@ def gen_two_hap(rng, t, unprefixed=False, primary=None):
             s[1] = [["F", nm, r[2], r[3], r[4], []] if r[0] == "F" else r for r in s[1]]
             extra_names.append(nm)
         inp += scs
+    if rng.random() < 0.5:
+        rng.shuffle(inp)  # the scaffolds of the haplotypes come interleaved in the input file
     by_name = {s[0]: s for s in inp}
     pieces, labels = gpv.gen_pieces(rng, inp, t, cut_prob=0.3)
+    if [s[0].split("_")[0] for s in inp] != sorted([s[0].split("_")[0] for s in inp], key=[H1, H2].index if all(s[0].split("_")[0] in (H1, H2) for s in inp) else None):
+        labels.add("in:haplotype-scaffolds-interleaved")
     if extra_names:
         labels.add("tag:unprefixed-scaffold-in-haplotype-map")
         # some of them are absent from the map altogether
@@ -288,6 +292,18 @@ def gen_two_hap(rng, t, unprefixed=False, primary=None):
         pc["hap"] = hap
         pc["nametag"] = None
         design.append({"painted": False, "rows": [pc], "target": True, "nametag": None, "row_tags": {}})
+    if extra_names and rng.random() < 0.5:
+        # an untagged Pretext scaffold of two pieces: the first from a scaffold of no haplotype, the second from a
+        # haplotype-named one.  Its haplotype is decided by the FIRST piece's name: the whole scaffold is unplaced
+        # sequence of no haplotype
+        firsts = [d for d in design if not d["painted"] and d["rows"][0]["s"] in extra_names and d["rows"][0]["kind"] == "unpainted"]
+        seconds = [d for d in design if not d["painted"] and d["rows"][0]["s"] not in extra_names and d["rows"][0]["kind"] == "unpainted" and not d.get("row_tags")]
+        if firsts and seconds:
+            a, b = rng.choice(firsts), rng.choice(seconds)
+            b["rows"][0]["expect"] = "none"
+            a["rows"].append(b["rows"][0])
+            design = [d for d in design if d is not b]
+            labels.add("tag:untagged-scaffold-of-mixed-origin")
     if rng.random() < 0.2:
         # one input scaffold cut in two unpainted pieces, both set aside with the same tag, one of them also
         # re-assigned to the other haplotype: both pieces are expected in that tag's file (names stay unique)
